@@ -7,6 +7,7 @@ import (
 	"fmt"
 	"math"
 	"math/rand"
+	"os"
 	"strings"
 )
 
@@ -54,6 +55,8 @@ type storeGen struct {
 	superseded       []bool
 	usedVersions     map[int]bool
 	saveFailAttempts int
+	inFork           bool // the current round re-executes a saved round at the same version (no version bumps there)
+	verShapes        bool // version changes while children are open, children filled by MergeDB (on since fix 280766e; VERIF_VERSION_SHAPES=0 switches them off)
 	pruned           int
 }
 
@@ -256,6 +259,58 @@ func (g *storeGen) maybeObserve(id int) {
 	}
 }
 
+// unusedPast returns a version below the block trie's current one at which this store never executed (-1: none)
+func (g *storeGen) unusedPast() int {
+	for c := g.version - 1; c >= 0 && c >= g.version-5; c-- {
+		if !g.usedVersions[c] {
+			return c
+		}
+	}
+	return -1
+}
+
+// versionShape: before a child is merged: the parent (block trie) is bumped by SetVersion
+// while children are open, or the child's own version is changed, or the child is filled by MergeDB from a donor - the
+// merged nodes then carry an origin other than the parent's version at merge time
+func (g *storeGen) versionShape(c *gTrie) {
+	if !g.verShapes || g.r.Intn(100) >= 35 {
+		return
+	}
+	x := g.r.Intn(3)
+	if x == 0 && g.inFork {
+		x = 1
+	}
+	switch x {
+	case 0:
+		g.version += 1 + g.r.Intn(2)
+		g.usedVersions[g.version] = true
+		g.emit("ver 0 %d", g.version)
+	case 1:
+		if w := g.unusedPast(); w >= 0 {
+			g.usedVersions[w] = true
+			g.emit("ver %d %d", c.id, w)
+			g.someOps(c, 2)
+		}
+	default:
+		if w := g.unusedPast(); w >= 0 && !c.stale {
+			g.usedVersions[w] = true
+			c.content = map[string]string{}
+			var kvs []string
+			for i, n := 0, 1+g.r.Intn(3); i < n; i++ {
+				k := g.keys[g.r.Intn(len(g.keys))]
+				if _, dup := c.content[k]; dup {
+					continue
+				}
+				v := g.value(k)
+				c.content[k] = v
+				kvs = append(kvs, ptok(k)+"="+v)
+			}
+			g.emit("syncinto %d %d %s", c.id, w, strings.Join(kvs, ","))
+			g.markStale(c.id)
+		}
+	}
+}
+
 func (g *storeGen) txn() {
 	blk := g.tries[0]
 	switch x := g.r.Intn(100); {
@@ -266,6 +321,7 @@ func (g *storeGen) txn() {
 			gc := g.open(c.id)
 			g.someOps(gc, 3)
 			g.maybeObserve(gc.id)
+			g.versionShape(gc)
 			if g.r.Intn(100) < 65 {
 				g.merge(gc)
 			} else {
@@ -275,6 +331,7 @@ func (g *storeGen) txn() {
 				g.someOps(c, 2)
 			}
 		}
+		g.versionShape(c)
 		g.maybeObserve(c.id)
 		g.maybeObserve(0)
 		switch y := g.r.Intn(100); {
@@ -307,6 +364,7 @@ func (g *storeGen) txn() {
 		for _, c := range cs {
 			g.maybeObserve(c.id)
 		}
+		g.versionShape(cs[g.r.Intn(n)])
 		g.r.Shuffle(n, func(i, j int) { cs[i], cs[j] = cs[j], cs[i] })
 		for _, c := range cs {
 			if g.r.Intn(100) < 70 {
@@ -333,6 +391,7 @@ func (g *storeGen) txn() {
 }
 
 func (g *storeGen) round(fork bool) {
+	g.inFork = fork
 	if !fork {
 		g.version += 1 + g.r.Intn(3)
 	}
@@ -490,7 +549,7 @@ func (g *storeGen) round(fork bool) {
 
 func genStoreCase(prof storeProfile) func(r *rand.Rand, tier string, idx int) []string {
 	return func(r *rand.Rand, tier string, idx int) []string {
-		g := &storeGen{r: r, prof: prof, keys: genKeyUniverse(r), version: r.Intn(4), savedMap: map[string]string{}, usedVersions: map[int]bool{}, saveFailAttempts: 60}
+		g := &storeGen{r: r, prof: prof, keys: genKeyUniverse(r), version: r.Intn(4), savedMap: map[string]string{}, usedVersions: map[int]bool{}, saveFailAttempts: 60, verShapes: os.Getenv("VERIF_VERSION_SHAPES") != "0"}
 		if tier == "thorough" {
 			g.saveFailAttempts = 400
 		}
